@@ -283,6 +283,39 @@ def history_case(case, counters, viol, nontrivial):
                 if bad:
                     viol.append({"mech": f"C13/history-population-changed/{str(bad[0]).split(' ')[0]}", "detail": f"{where}: population {t}: {bad}"})
                     break
+        # a long run: more stored populations than fit in one decimal digit (HDF5 lists group members by name, "10" before "2")
+        from aspire.samples import SMCSamples
+
+        xp_h = h.sample_history[0].xp if h.sample_history else env.xp_of("numpy")
+        n_long = int(g.integers(11, 26))
+        long_h = SMCHistory()
+        betas = np.sort(g.uniform(0, 1, n_long))
+        betas[0], betas[-1] = 0.0, 1.0
+        for b in betas:
+            m = int(g.integers(3, 7))
+            long_h.sample_history.append(SMCSamples(x=xp_h.asarray(g.standard_normal((m, 2))), log_likelihood=xp_h.asarray(g.standard_normal(m)), log_prior=xp_h.asarray(g.standard_normal(m)),
+                                                    log_q=xp_h.asarray(g.standard_normal(m)), beta=float(b), xp=xp_h, parameters=["b", "a"]))
+        long_h.beta = [float(b) for b in betas[1:]]
+        long_h.ess = [float(v) for v in g.uniform(1, 5, n_long - 1)]
+        counters["long_history_roundtrips"] += 1
+        try:
+            with h5py.File(path, "w") as f:
+                long_h.save(f, path="run/smc_history")
+            with h5py.File(path, "r") as f:
+                long_2 = SMCHistory.load(f, path="run/smc_history")
+        except Exception as exc:  # noqa: BLE001
+            viol.append({"mech": "C13/history-save-load-raises", "detail": f"synthetic history with {n_long} populations: {type(exc).__name__}: {str(exc)[:200]}"})
+            long_2 = None
+        if long_2 is not None:
+            if len(long_2.sample_history) != n_long:
+                viol.append({"mech": "C13/history-populations-lost", "detail": f"synthetic history: {n_long} saved, {len(long_2.sample_history)} loaded"})
+            else:
+                for t_, (p, q) in enumerate(zip(long_h.sample_history, long_2.sample_history)):
+                    if not same_arr(p.x, q.x) or not same_arr(p.log_q, q.log_q) or float(to_np(p.beta)) != float(to_np(q.beta)):
+                        viol.append({"mech": "C13/history-population-changed/order", "detail": f"synthetic history with {n_long} populations: entry {t_} (beta {float(to_np(p.beta))!r}) came back with beta {float(to_np(q.beta))!r}"})
+                        break
+            if [float(v) for v in np.asarray(to_np(long_2.beta), dtype=float).reshape(-1)] != long_h.beta:
+                viol.append({"mech": "C13/history-series-changed/beta", "detail": f"synthetic history with {n_long} populations"})
         fh = FlowHistory(training_loss=[float(v) for v in g.random(5)], validation_loss=[float(v) for v in g.random(5)])
         with h5py.File(path, "w") as f:
             fh.save(f)
